@@ -618,6 +618,8 @@ def call(fn, args=(), kw=()):
             return call(ext("np.array"), (mk("comp", "list", *args[0].a[1:]),))
     if name == "np.sum" and len(args) == 1 and len(kw) == 1 and kw[0][0] == "axis" and is_const(kw[0][1], 0) and _boolean_valued(args[0]):
         return call(mk("builtin", "sum"), (args[0],))  # mask.sum(axis=0) is the builtin sum over the first axis
+    if name == "itertools.repeat" and len(args) == 2 and not kw:
+        return binop("*", lst([args[0]]), args[1])  # itertools.repeat(x, n) yields what [x] * n holds
     if name in ("builtins.any", "builtins.all") and len(args) == 1 and not kw and args[0].op in ("tuple", "list") and len(args[0].a) >= 1 and all(_boolean_valued(z) for z in args[0].a):
         # any((t1, t2, ..)) over a display of tests is t1 or t2 or ..; all(..) is the conjunction
         if len(args[0].a) == 1:
